@@ -669,8 +669,10 @@ class SCML_Supervised(_BaseSCML, TransformerMixin):
         try:
           basis[start: finish, :] = normalized_scalings
         except ValueError:
-          # handle tail
+          # handle tail: the basis set is complete (with n_basis smaller than
+          # the number of directions of one region this happens at the first
+          # scale already, and there is nothing left for the second one)
           basis[start:, :] = normalized_scalings[:n_basis-start]
-          break
+          return basis, n_basis
 
     return basis, n_basis
